@@ -287,6 +287,9 @@ func runGlue(r *Rng, st *Stats, n int, tier string) {
 	for i := 0; i < nSib; i++ {
 		projects = append(projects, scenarioSiblings(r))
 	}
+	for i := 0; i < nSib; i++ {
+		projects = append(projects, scenarioSharedFailingImport(r))
+	}
 	rootsA := make([]string, len(projects))
 	rootsB := make([]string, len(projects))
 	for i, p := range projects {
@@ -302,6 +305,9 @@ func runGlue(r *Rng, st *Stats, n int, tier string) {
 		b := (a + 1 + r.Intn(len(variants)-1)) % len(variants)
 		if projects[i].Kind == "shared-chunk-siblings" {
 			a, b = 0, 1 // the splitting variants
+		}
+		if projects[i].Kind == "shared-failing-import" {
+			a, b = 0, 4 // bundling variants
 		}
 		projVariants[i] = []int{a, b}
 	}
